@@ -53,6 +53,7 @@ type Baseline struct {
 	Funcs  map[string]FuncBase            `json:"funcs"`
 	Locals map[string]map[string][]string `json:"locals"`   // root function key → local name → sorted def fingerprints
 	PkgVar map[string]map[string][]string `json:"pkg_vars"` // package short path → unexported package-level var → fingerprints
+	Lits   map[string]string              `json:"closures"` // closure unit key → structural hash of its body
 }
 
 var (
@@ -587,7 +588,15 @@ func pkgVarFingerprints(fset *token.FileSet, src *srcCache, pk *packages.Package
 // DumpBaseline renders the baseline of the loaded program (used once per pinned
 // tree: `engcheck -dump-baseline > core/baseline.json`).
 func (p *Prog) DumpBaseline() []byte {
-	b := Baseline{Funcs: map[string]FuncBase{}, Locals: map[string]map[string][]string{}, PkgVar: map[string]map[string][]string{}}
+	b := Baseline{Funcs: map[string]FuncBase{}, Locals: map[string]map[string][]string{}, PkgVar: map[string]map[string][]string{}, Lits: map[string]string{}}
+	for _, u := range p.Units {
+		if u.Lit == nil {
+			continue
+		}
+		if h := p.litHash(u); h != "" {
+			b.Lits[u.Key] = h
+		}
+	}
 	for _, d := range p.decls {
 		b.Funcs[d.key] = FuncBase{Sig: d.sig, Hash: d.hash}
 		m := map[string]map[string]bool{}
@@ -643,4 +652,106 @@ func (p *Prog) RemovedNotRenamed(key string) bool {
 		}
 	}
 	return true
+}
+
+func (p *Prog) declOf(u *Unit) *declInfo {
+	r := u.Root()
+	for _, d := range p.decls {
+		if d.fd == r.Decl {
+			return d
+		}
+	}
+	return nil
+}
+
+// litHash: structural hash of a function literal's body with the locals of its root function erased.
+func (p *Prog) litHash(u *Unit) string {
+	if u.Lit == nil {
+		return ""
+	}
+	d := p.declOf(u)
+	if d == nil {
+		return ""
+	}
+	return structHash(p.Fset, p.src, u.Lit.Body.Pos(), u.Lit.Body.End(), d.er)
+}
+
+// recoverClosures: a novel declared function whose body is, token for token
+// (locals and receiver erased), the body of a baseline closure that no longer
+// exists is that closure turned into a named function or method (passed as a
+// method value, deferred or called where the literal used to be). It takes the
+// closure's key, so every rule anchored on the closure finds it.
+func (p *Prog) recoverClosures() {
+	bl := loadBaseline()
+	if BaselineOff || len(bl.Lits) == 0 {
+		return
+	}
+	var gone []string
+	for k := range bl.Lits {
+		if p.byKey[k] == nil {
+			gone = append(gone, k)
+		}
+	}
+	sort.Strings(gone)
+	if len(gone) == 0 {
+		return
+	}
+	taken := map[string]bool{}
+	for _, d := range p.decls {
+		if !novelFuncs[d.obj] || d.hash == "" {
+			continue
+		}
+		var cands []string
+		for _, k := range gone {
+			if taken[k] || bl.Lits[k] != d.hash {
+				continue
+			}
+			// same package as the closure's root function
+			root := k
+			if i := strings.Index(k, "$"); i >= 0 {
+				root = k[:i]
+			}
+			ru := p.byKey[root]
+			if ru == nil || ru.Pkg != d.pk {
+				continue
+			}
+			cands = append(cands, k)
+		}
+		if len(cands) != 1 {
+			continue
+		}
+		k := cands[0]
+		u := p.byObj[d.obj]
+		if u == nil {
+			continue
+		}
+		taken[k] = true
+		delete(p.byKey, u.Key)
+		old := u.Key
+		u.Key = k
+		p.byKey[k] = u
+		funcAlias[d.obj] = k
+		novelFuncs[d.obj] = false
+		if p.Recovery != nil {
+			p.Recovery.RenamedFuncs[old] = k + " (closure turned into a named function)"
+			var nf []string
+			for _, n := range p.Recovery.NovelFuncs {
+				if n != old {
+					nf = append(nf, n)
+				}
+			}
+			p.Recovery.NovelFuncs = nf
+		}
+		// re-key the literals nested in it
+		for _, kid := range u.AllUnits()[1:] {
+			delete(p.byKey, kid.Key)
+			kid.Key = k + strings.TrimPrefix(kid.Key, old)
+			p.byKey[kid.Key] = kid
+		}
+		if i := strings.LastIndex(k, "$"); i >= 0 {
+			if parent := p.byKey[k[:i]]; parent != nil {
+				parent.Kids = append(parent.Kids, u)
+			}
+		}
+	}
 }
